@@ -66,6 +66,9 @@ func main() {
 	repo := flag.String("repo", "/repo", "repository under test")
 	flag.Parse()
 	repoDir = *repo
+	if fileTwinWrap != nil {
+		fileTwinWrap() // the file entry points ride along with the properties whose string entry points they mirror
+	}
 	if *replay != "" {
 		os.Exit(doReplay(*replay, *driver))
 	}
